@@ -307,6 +307,10 @@ func runC02(p *Program, r *Result) {
 					core = append(core, "short")
 				case strings.HasPrefix(s, "io.ReadFull(") && strings.HasSuffix(s, ".1 != io.EOF"):
 				case s == "len(Field(Recv.unread)) == 0":
+				case a.Kind == "bool" && a.X != nil && a.X.Op == "Phi":
+					// the merged result of a spliced predicate: its meaning is carried by the threaded facts
+				case strings.HasPrefix(s, "(RangeIdx#") && a.Kind == "cmp":
+					// loop counter bounds of a spliced predicate's loop
 				default:
 					rest = append(rest, s)
 				}
